@@ -689,6 +689,7 @@ def correspondence(rep, rng, tier):
     rep.broken[:] = uniq
     from .. import scenhist
     scenhist.section(rep, rng, tier, 'C11')
+    scenhist.parser_history_section(rep, rng, tier, 'C11')
 
 
 def replay(path):
@@ -700,9 +701,9 @@ def replay(path):
             print(' section %s: %s\n   model: %s\n   impl : %s' % (d['section'], d['line'], d['model'], d['impl']))
         return 1
     rp = r['replay']
-    if rp.get('section') == 'scenario-history':
+    if rp.get('section') in ('scenario-history', 'parser-history'):
         from .. import scenhist
-        bad, lines = scenhist.replay(rp)
+        bad, lines = (scenhist.replay if rp['section'] == 'scenario-history' else scenhist.replay_parser_history)(rp)
         print('\n'.join(lines))
         if bad:
             print(f'VIOLATION property=C11 replay={path}')
